@@ -2575,6 +2575,13 @@ evhttp_read_header(struct evhttp_connection *evcon,
 			evhttp_start_write_(evcon);
 			return;
 		}
+		/* Any other 1xx response except 101 is interim as well
+		 * (RFC 9110 15.2): drop it and wait for the final one. */
+		if (req->response_code > 101 && req->response_code < 200) {
+			evhttp_clear_headers(req->input_headers);
+			evhttp_start_read_(evcon);
+			return;
+		}
 		if (!evhttp_response_needs_body(req)) {
 			event_debug(("%s: skipping body for code %d\n",
 					__func__, req->response_code));
